@@ -29,6 +29,7 @@ type Env struct {
 	result   *SVal
 	callSite bool
 	callArgs []*SVal // at-call clauses: the arguments of the call
+	atInstr  ssa.Instruction // at-call clauses: the call instruction (locals are resolved as of this point)
 }
 
 // contractEnv builds the environment for evaluating ct's clauses. args are
@@ -635,6 +636,11 @@ func (env *Env) local(o *types.Var) *SVal {
 			}
 		}
 	}
+	if env.atInstr != nil {
+		if v := env.localAt(o, env.atInstr); v != nil {
+			return v
+		}
+	}
 	var cands []ssa.Value
 	seen := map[ssa.Value]bool{}
 	var addrVal ssa.Value
@@ -701,6 +707,75 @@ func (env *Env) local(o *types.Var) *SVal {
 		return e.val(fr, avail[len(avail)-1])
 	}
 	return nil
+}
+
+// localAt: the value of local variable o just before instruction at: the nearest reference to o
+// (go/ssa records every definition and use) in the same block before at, else in the closest
+// dominating block.
+func (env *Env) localAt(o *types.Var, at ssa.Instruction) *SVal {
+	e := env.e
+	fr := env.fr
+	ab := at.Block()
+	if ab == nil {
+		return nil
+	}
+	atIdx := -1
+	for i, in := range ab.Instrs {
+		if in == at {
+			atIdx = i
+		}
+	}
+	depth := func(b *ssa.BasicBlock) int {
+		n := 0
+		for x := b; x != nil; x = x.Idom() {
+			n++
+		}
+		return n
+	}
+	var best *ssa.DebugRef
+	bestDepth, bestIdx := -1, -1
+	for _, b := range fr.fn.Blocks {
+		if b != ab && !b.Dominates(ab) {
+			continue
+		}
+		d := depth(b)
+		for i, in := range b.Instrs {
+			if b == ab && i >= atIdx {
+				break
+			}
+			dr, ok := in.(*ssa.DebugRef)
+			if !ok {
+				continue
+			}
+			id, ok := dr.Expr.(*ast.Ident)
+			if !ok {
+				continue
+			}
+			var dobj types.Object
+			if p := e.w.Pkgs[fr.fn.Pkg.Pkg.Path()]; p != nil {
+				dobj = p.TypesInfo.ObjectOf(id)
+			}
+			if dobj != o {
+				continue
+			}
+			if d > bestDepth || (d == bestDepth && i > bestIdx) {
+				best, bestDepth, bestIdx = dr, d, i
+			}
+		}
+	}
+	if best == nil {
+		return nil
+	}
+	if _, ok := fr.vals[best.X]; !ok {
+		if _, isConst := best.X.(*ssa.Const); !isConst {
+			return nil
+		}
+	}
+	v := e.val(fr, best.X)
+	if best.IsAddr {
+		return e.load(env.state(), e.addrOf(v))
+	}
+	return v
 }
 
 // fieldPath walks a selection index path from a base value.
@@ -916,6 +991,13 @@ func (env *Env) call(n *ast.CallExpr) *SVal {
 				return env.mkBool(c.Forall([]*Term{bv}, c.Implies(rng, body)))
 			}
 			return env.mkBool(c.Exists([]*Term{bv}, c.And(rng, body)))
+		case "atentry":
+			// atentry(x), in a loop invariant or variant: the value x had when the loop was entered
+			v := env.tr(n.Args[0])
+			if env.loop == nil || env.loop.initMap == nil || v.T == nil {
+				env.fail(n, "atentry() is only available in loop invariants on scalar values")
+			}
+			return &SVal{K: v.K, Typ: v.Typ, T: c.Subst(v.T, env.loop.initMap)}
 		case "cur":
 			// cur(x): the current value of the local variable or (reassigned) parameter x
 			if id, ok := n.Args[0].(*ast.Ident); ok && env.fr != nil {
